@@ -147,6 +147,7 @@ def direct_cases(draw):
             "normalization": draw(st.booleans()), "suffix": draw(st.sampled_from(["", "", ".a", ".x1"])),
             "nold": draw(st.integers(0, 2)), "regularization": draw(st.booleans()),
             "akernel": draw(st.sampled_from([1, 3, 5, 5])), "vdepth": draw(st.integers(0, 2)),
+            "origin": draw(st.sampled_from([None, None, [3, 2], [50, 17]])),
             "athr": draw(st.sampled_from([0.6, 0.4, 0.8, 0.0, 1.0])),
             "win": win, "img": draw(st.lists(st.lists(st.integers(0, 9), min_size=Wi, max_size=Wi),
                                              min_size=Hi, max_size=Hi))}
@@ -172,9 +173,10 @@ def direct_body(ctx: Ctx, p: dict) -> None:
         old[f"confidence_from_old{k}"] = (np.arange(H)[:, None] * 1.5 + np.arange(W)[None, :] + k).astype(np.float32)
     if method == "interval_bounds" and p["regularization"]:
         old["confidence_from_ambiguity" + sfx] = (((np.arange(H)[:, None] * 3 + np.arange(W)[None, :]) % 7) / 7.0).astype(np.float32)
-    cvds = build.cost_volume_dataset(cv, p["disps"], tm, off, p["subpix"], None, old or None)
+    r0, c0 = p.get("origin") or (0, 0)
+    cvds = build.cost_volume_dataset(cv, p["disps"], tm, off, p["subpix"], None, old or None, row0=r0, col0=c0)
     cvds.attrs["window_size"] = p["win"]
-    left = build.image_dataset(img, None, (int(math.floor(p["disps"][0])), int(math.ceil(p["disps"][-1]))))
+    left = build.image_dataset(img, None, (int(math.floor(p["disps"][0])), int(math.ceil(p["disps"][-1]))), row0=r0, col0=c0)
     cfg = {"confidence_method": method, "indicator": sfx}
     if method in ("ambiguity", "risk"):
         cfg.update(eta_max=p["eta_max"], eta_step=p["eta_step"])
@@ -355,7 +357,9 @@ def pipeline_cases(draw):
     if tail.startswith("validation"):
         steps.append(["validation", {"validation_method": "cross_checking_accurate"}])
     dmin = draw(st.integers(-3, 0))
-    return {"pair": pair, "pipeline": steps, "disp": gen.clamp_interval([dmin, dmin + draw(st.integers(1, 4))], pair["W"], steps)}
+    return {"pair": pair, "pipeline": steps, "disp": gen.clamp_interval([dmin, dmin + draw(st.integers(1, 4))], pair["W"], steps),
+            # the same pair labelled with the row / column coordinates of a tile of a larger image
+            "origin": draw(st.sampled_from([None, None, [2, 3], [40, 100], [0, 7]]))}
 
 
 def pipeline_body(ctx: Ctx, p: dict) -> None:
@@ -364,6 +368,19 @@ def pipeline_body(ctx: Ctx, p: dict) -> None:
     bare = {k: v for k, v in full.items() if not k.startswith("cost_volume_confidence")}
     a = drive.run_pipeline(pipeline=full, disp=tuple(p["disp"]), **kw)
     b = drive.run_pipeline(pipeline=bare, disp=tuple(p["disp"]), **kw)
+    if p.get("origin"):
+        # band values are defined by costs and radiometry, not by where the coordinates start
+        t = drive.run_pipeline(pipeline=gen.pipe_dict(p["pipeline"]), disp=tuple(p["disp"]), row0=p["origin"][0], col0=p["origin"][1], **kw)
+        for side in ("left", "right"):
+            da, dt = getattr(a, side), getattr(t, side)
+            if "confidence_measure" in da:
+                if "confidence_measure" not in dt or list(dt.coords["indicator"].data) != list(da.coords["indicator"].data):
+                    ctx.violation("C12/bands-depend-on-coordinate-origin", f"{side}: band list differs with origin {p['origin']}")
+                elif not np.array_equal(da["confidence_measure"].data, dt["confidence_measure"].data, equal_nan=True):
+                    k = int(np.argwhere(~((da["confidence_measure"].data == dt["confidence_measure"].data) |
+                                          (np.isnan(da["confidence_measure"].data) & np.isnan(dt["confidence_measure"].data))))[0][2])
+                    ctx.violation("C12/bands-depend-on-coordinate-origin",
+                                  f"{side}: band {da.coords['indicator'].data[k]} differs when rows / columns start at {p['origin']}")
     for side in ("left", "right"):
         da, db = getattr(a, side), getattr(b, side)
         if ("disparity_map" in da) != ("disparity_map" in db):
